@@ -225,6 +225,7 @@ def run(ctx):
         ctx.configs.append(config)
         generic_rules(ctx, config, w.U)
         n = forwarders(ctx, config, w)
+        G.unit_identity(ctx, config, w)
         ctx.floor("%s: comparison forwarders of reference-unit types" % config, n, 2 * (23 if config == "f64-all" else 19))
         ov = G.overrides(ctx, "override", w.U, model.T_HRU, {"REF_UNIT"}, "HasRefUnit")
         for tk, (extra, imp) in ov.items():
